@@ -65,6 +65,14 @@ CHECKS = {
             "initial assignment of the cached flag to up to five chosen cells; all query outcomes must equal the all-cached run. "
             "Uncached cells must hold no values, run on every call, accept unhashable arguments and reject assignment.",
             "None-returning formulas and assignments to flag-carrying cells are outside the generated domain; per-case enumeration of assignments is exhaustive, cases are sampled"),
+    "C11": ("exploration",
+            "stateful property-based testing (Hypothesis): histories mixing valid edits with a catalogue of invalid requests; invariant 'description before == after' on every rejection and well-formedness (acyclic, C3, valid names) after every acceptance",
+            "Generated histories interleave valid edits and evaluations with invalid requests covering each rejection reason x each "
+            "operation that can trigger it. Whenever an operation raises, the public description of the whole model (definitions "
+            "and inputs) must be unchanged, no held value may change, and the library self-checks must pass; whenever it is "
+            "accepted, the base relation must stay acyclic with a C3 linearisation and names valid. Must-accept requests guard "
+            "against rejecting everything.",
+            "which requests are rejected is modelx's choice (accept-follows-real); dropping computed (non-input) values on a rejection is allowed"),
     "C14": ("fault_enumeration",
             "fault injection with a process-wide audit hook: every file-system event of write_model/read_model is a fault point in turn (exhaustive per case), plus consecutive-failure sequences, pickling faults and a file corruption sweep, over Hypothesis-generated models",
             "For generated models, both container formats and 0-4 earlier good saves, the save (or load) is replayed from a restored "
